@@ -120,12 +120,17 @@ func parseProxy(s string) (Proxy, error) {
 	if !ok {
 		return noProxy, errors.New("missing host:port")
 	}
+	// More than one blank may separate the keyword from host:port.
+	hostport = strings.TrimLeft(hostport, " \t")
 	host, port, err := net.SplitHostPort(hostport)
 	if err != nil {
 		return noProxy, fmt.Errorf("split host:port: %w", err)
 	}
 	if host == "" {
 		return noProxy, errors.New("missing host")
+	}
+	if strings.ContainsAny(host, " \t") {
+		return noProxy, fmt.Errorf("invalid host %q", host)
 	}
 	if n, err := strconv.ParseUint(port, 10, 16); err != nil || n == 0 {
 		return noProxy, fmt.Errorf("invalid port %q", port)
